@@ -105,6 +105,7 @@ func WriteFileAt(dir *os.File, filename string, data []byte, perm os.FileMode) e
 	if werr != nil {
 		_ = unix.Unlinkat(dirFd, tempname, 0)
 	}
+	vhook.K("wfa.afterRename")
 	return werr
 }
 
